@@ -25,7 +25,7 @@
 (* select.  Nodes touched by a quiet operation are outside the claim         *)
 (* (unclaimed) until the client is told about them again.                    *)
 (***************************************************************************)
-EXTENDS Naturals, Sequences, FiniteSets, TLC
+EXTENDS Integers, Sequences, FiniteSets, TLC
 
 VARIABLES tree,       \* function: path of a present node -> payload
           conn,       \* set of connected sessions
